@@ -58,6 +58,7 @@ type fnSpec struct {
 
 type model struct {
 	ctxID   int
+	dead    map[int]bool // root contexts cancelled by their owner (not through the container)
 	rec     *mRec
 	state   int
 	stateFn *fnSpec
@@ -80,8 +81,31 @@ type model struct {
 	expectNext  int
 }
 
+// normalize mirrors "if k.ctx != nil && k.ctx.Err() != nil { k.ctx = nil }", which
+// WaitExited, SetRoutine/SetState and RestartRoutine perform on entry.
+func (m *model) normalize() {
+	if m.ctxID != 0 && m.dead[m.ctxID] {
+		m.ctxID = 0
+	}
+}
+
+// CancelRoot: the owner of root context cid cancelled it. Every instance derived
+// from it is cancelled at once; the container notices lazily (normalize).
+func (m *model) CancelRoot(cid int) {
+	if m.dead == nil {
+		m.dead = map[int]bool{}
+	}
+	m.dead[cid] = true
+	for _, t := range m.toks {
+		if t.ctxID == cid {
+			t.cancelled = true
+		}
+	}
+}
+
 func (m *model) spawn(rec *mRec) *mTok {
 	t := &mTok{id: len(m.toks), rec: rec, ctxID: m.ctxID, state: rec.state, gen: rec.gen, spawnStep: m.step}
+	t.cancelled = m.dead[m.ctxID] // started under a dead root context: never enters the function
 	m.toks = append(m.toks, t)
 	m.unbound = append(m.unbound, t)
 	rec.tok = t
@@ -150,6 +174,7 @@ func (m *model) SetContext(cid int, restart bool) bool {
 
 // SetRoutine returns (waitReturn non-nil, reset).
 func (m *model) SetRoutine(fn *fnSpec, state int) (bool, bool) {
+	m.normalize()
 	prev := m.rec
 	chNonNil, wasReset := false, false
 	if prev != nil {
@@ -182,6 +207,7 @@ func (m *model) SetRoutine(fn *fnSpec, state int) (bool, bool) {
 
 // RestartRoutine returns the documented result.
 func (m *model) RestartRoutine() bool {
+	m.normalize()
 	rec := m.rec
 	if rec == nil {
 		return false
@@ -198,7 +224,7 @@ func (m *model) RestartRoutine() bool {
 
 // running mirrors getRunningLocked.
 func (m *model) running() bool {
-	return m.ctxID != 0 && m.rec != nil && m.rec.status != stFailed && m.rec.status != stSucceeded
+	return m.ctxID != 0 && !m.dead[m.ctxID] && m.rec != nil && m.rec.status != stFailed && m.rec.status != stSucceeded
 }
 
 // SetState returns (chNonNil, changed, reset, running).
@@ -324,7 +350,7 @@ func (m *model) TimerSection(rec *mRec) (stale bool) {
 
 // returnable reports what WaitExited may return right now.
 func (m *model) returnable(rinr bool) (bool, error) {
-	if m.rec != nil && m.ctxID != 0 {
+	if m.rec != nil && m.ctxID != 0 && !m.dead[m.ctxID] {
 		if m.rec.status == stFailed || m.rec.status == stSucceeded {
 			return true, m.rec.err
 		}
